@@ -179,3 +179,11 @@ pub proof fn lemma_xor_add_pow2(x: u32, i: nat)
     assert((x ^ p) == x + p) by (bit_vector) requires iu <= 8, p == 1u32 << iu, x < p;
     assert((x ^ 0u32) == x) by (bit_vector);
 }
+
+pub proof fn lemma_pow2_inj(a: nat, b: nat)
+    ensures a == b <==> pow2(a) == pow2(b),
+    decreases a + b
+{
+    lemma_pow2(a); lemma_pow2(b);
+    if a < b { lemma_pow2_mono(a + 1, b); } else if b < a { lemma_pow2_mono(b + 1, a); }
+}
